@@ -257,8 +257,8 @@ let () =
             | "propagates" ->
               (* db initial-watches asserted-clause-ids pevents -> calls-compared assignments-compared all-equal *)
               let db = rep s clause in let init = rep s owatch in let asserted = nlist s in let evs = rep s pevent in
-              let (((nc, na), ok), hyp) = check_propagates db init asserted evs in
-              Printf.sprintf "%d %d %s %s" (int_of_n nc) (int_of_n na) (b ok) (b hyp)
+              let ((((nc, na), ok), hyp), nbad) = check_propagates db init asserted evs in
+              Printf.sprintf "%d %d %s %s %d" (int_of_n nc) (int_of_n na) (b ok) (b hyp) (int_of_n nbad)
             | "decides" ->
               (* U db devents -> number-of-decide-calls all-equal-to-the-model (default activity parameters) *)
               let u = universe s in let db = rep s clause in let evs = rep s devent in
